@@ -346,3 +346,389 @@ def mon_atomic(ctx):
             return ("atomic.unchanged", "%s raised %s but new obj#%d is attached to obj#%d" %
                     (ctx.name, ctx.outcome[1], j, par))
     return None
+
+
+# ------------------------------------------------------------------------------- C09
+
+def card_normal_form(card):
+    """card as canon(): None, or ['tuple', [a, b]] with a, b None / non-negative int."""
+    if card is None:
+        return True
+    if not (isinstance(card, list) and card[0] == "tuple" and len(card[1]) == 2):
+        return False
+    lo, hi = card[1]
+    vals = []
+    for e in (lo, hi):
+        if e is None:
+            vals.append(None)
+        elif e[0] == "int" and e[1] >= 0:
+            vals.append(e[1])
+        else:
+            return False
+    if not vals[0] and not vals[1]:
+        return False      # both empty: must be stored as unset
+    if vals[0] is not None and vals[1] is not None and vals[0] > vals[1]:
+        return False
+    return True
+
+
+def card_pair(card):
+    if card is None:
+        return None, None
+    lo, hi = card[1]
+    return (lo[1] if lo else None), (hi[1] if hi else None)
+
+
+_CARD_FIELDS = {"sec": ("sec_card", "prop_card"), "prop": ("val_card",)}
+_CARD_ISSUE = {"sec_card": "section_sections_cardinality", "prop_card": "section_properties_cardinality",
+               "val_card": "property_values_cardinality"}
+_CARD_COUNT = {"sec_card": "secs", "prop_card": "props", "val_card": "values"}
+
+
+def card_form(snap):
+    for i, rec in enumerate(snap["objs"]):
+        for field in _CARD_FIELDS.get(rec.get("k"), ()):
+            if not card_normal_form(rec[field]):
+                return ("card.form", "obj#%d.%s is %r" % (i, field, rec[field]))
+    return None
+
+
+def card_reports(U, snap):
+    """An issue 500/501/502 is reported for an object iff its count is outside [min, max]."""
+    from odml.validation import Validation
+    reported = {}
+    for i, obj in enumerate(U.objs):
+        if kind_of(obj) not in ("sec", "prop"):
+            continue
+        # one validation per object: validating a Section does not cover its own Properties
+        for err in Validation(obj).errors:
+            if err.obj is not obj:
+                continue
+            vid = getattr(err.validation_id, "name", str(err.validation_id))
+            if vid in _CARD_ISSUE.values():
+                reported.setdefault((i, vid), []).append(err.rank)
+    for i, rec in enumerate(snap["objs"]):
+        for field in _CARD_FIELDS.get(rec.get("k"), ()):
+            lo, hi = card_pair(rec[field])
+            count = len(rec[_CARD_COUNT[field]])
+            outside = (lo is not None and count < lo) or (hi is not None and count > hi)
+            ranks = reported.pop((i, _CARD_ISSUE[field]), [])
+            if outside and not ranks:
+                return ("card.report-exact", "obj#%d %s=%r count=%d: no %s issue reported" %
+                        (i, field, (lo, hi), count, _CARD_ISSUE[field]))
+            if not outside and ranks:
+                return ("card.report-exact", "obj#%d %s=%r count=%d: %s reported although "
+                        "the count is inside" % (i, field, (lo, hi), count, _CARD_ISSUE[field]))
+            if len(ranks) > 1:
+                return ("card.report-exact", "obj#%d %s: issue reported %d times" %
+                        (i, field, len(ranks)))
+            if ranks and ranks[0] != "warning":
+                return ("card.report-exact", "obj#%d %s: issue has rank %r" % (i, field, ranks[0]))
+    for (i, vid) in reported:
+        if i is not None:
+            return ("card.report-exact", "obj#%s: unexpected %s issue" % (i, vid))
+    return None
+
+
+def mon_card(ctx):
+    v = card_form(ctx.post)
+    if v:
+        return v
+    if ctx.name in ("set_card", "set_card2") and ctx.raised:
+        if ctx.outcome[1] != "ValueError" and "wrong_type" not in ctx.labels:
+            return ("card.refusal-keeps", "%s raised %s: %s" % (ctx.name, ctx.outcome[1],
+                                                                 ctx.outcome[2]))
+        i = ctx.U.index(ctx.args["x"])
+        if ctx.pre["objs"][i] != ctx.post["objs"][i]:
+            return ("card.refusal-keeps", "refused cardinality assignment changed the object: %s" %
+                    "; ".join(diff_snapshots(ctx.pre, ctx.post, only=[i])))
+    if ctx.op.get("valid") and ctx.raised:
+        return ("card.never-enforced", "valid-by-construction %s raised %s: %s" %
+                (ctx.name, ctx.outcome[1], ctx.outcome[2]))
+    v = card_reports(ctx.U, ctx.post)
+    if v:
+        return v
+    if ctx.name == "restart" and not ctx.raised:
+        new = ctx.U.objs[ctx.outcome[1]["new"]]
+        old = ctx.args["d"]
+        a = [o for o in ctx.U.subtree(old)]
+        b = [o for o in ctx.U.subtree(new)]
+        if len(a) != len(b):
+            return None     # structure is C01/C02's business; only cardinalities are judged here
+        for oa, ob in zip(a, b):
+            ra, rb = ctx.post["objs"][ctx.U.index(oa)], ctx.post["objs"][ctx.U.index(ob)]
+            if ra.get("k") != rb.get("k") or ra.get("id") != rb.get("id"):
+                return None
+            for field in _CARD_FIELDS.get(ra.get("k"), ()):
+                if ra[field] != rb[field]:
+                    return ("card.persisted", "%s of %s %r: %r before, %r after restart through %s" %
+                            (field, ra["k"], ra.get("name"), ra[field], rb[field],
+                             ctx.op.get("backend")))
+    return None
+
+
+# ------------------------------------------------------------------------------- C11
+
+def nested(snap, idx, with_ids=True, depth=0):
+    """Nested canonical tree below object idx of a snapshot."""
+    rec = snap["objs"][idx]
+    out = {k: v for k, v in rec.items() if k not in ("parent", "secs", "props", "merged")}
+    if not with_ids:
+        out.pop("id", None)
+    if depth < MAX_DEPTH:
+        out["secs"] = [nested(snap, i, with_ids, depth + 1) for i in rec.get("secs", []) if i >= 0]
+        out["props"] = [nested(snap, i, with_ids, depth + 1) for i in rec.get("props", []) if i >= 0]
+    return out
+
+
+def subtree_indices(snap, idx):
+    out = [idx]
+    k = 0
+    while k < len(out) and len(out) < 2000:
+        rec = snap["objs"][out[k]]
+        k += 1
+        for i in list(rec.get("secs", [])) + list(rec.get("props", [])):
+            if i >= 0 and i not in out:
+                out.append(i)
+    return out
+
+
+def root_index(snap, idx):
+    cur = idx
+    for _ in range(MAX_DEPTH):
+        par = snap["objs"][cur].get("parent")
+        if par is None or par < 0:
+            return cur
+        cur = par
+    return cur
+
+
+REF_ARG_KEYS = ("t", "x", "y", "p", "d", "parent")
+# ops that must not change any pre-existing object at all
+OBSERVERS = ("clone", "export_leaf", "get_values", "hold_list", "validate", "doc_validate",
+             "validate_custom", "save", "load", "restart", "advance")
+
+
+def footprint(ctx):
+    """Indices (pre-state) of every object the op is allowed to change."""
+    name = ctx.name
+    if name in OBSERVERS or name == "alias_mutate":
+        return set()
+    involved = []
+    keys = REF_ARG_KEYS
+    if name == "merge":
+        keys = ("t",)          # the source of a merge must stay as it was
+    for key in keys:
+        obj = ctx.args.get(key)
+        if obj is not None and kind_of(obj) != "other":
+            involved.append(obj)
+    for obj in ctx.args.get("xs", []) or []:
+        if kind_of(obj) != "other":
+            involved.append(obj)
+    allowed = set()
+    n = len(ctx.pre["objs"])
+    for obj in involved:
+        i = ctx.U.index(obj)
+        if i is None or i >= n:
+            continue
+        allowed.update(subtree_indices(ctx.pre, root_index(ctx.pre, i)))
+    return allowed
+
+
+def mon_frame(ctx):
+    allowed = footprint(ctx)
+    pre, post = ctx.pre, ctx.post
+    for i in range(len(pre["objs"])):
+        if i in allowed:
+            continue
+        if pre["objs"][i] != post["objs"][i]:
+            return ("frame.untouched", "%s changed obj#%d outside its footprint: %s" % (
+                ctx.name, i, "; ".join(diff_snapshots(pre, post, only=[i]))))
+    mutated = None
+    if ctx.name == "alias_mutate" and ctx.U.aliases:
+        mutated = ctx.op["a"] % len(ctx.U.aliases)
+    for k in range(len(pre["aliases"])):
+        if k == mutated:
+            continue
+        if pre["aliases"][k] != post["aliases"][k]:
+            return ("frame.untouched", "%s changed alias#%d: %r -> %r" %
+                    (ctx.name, k, pre["aliases"][k], post["aliases"][k]))
+    return None
+
+
+def _inner_lists(obj):
+    out = []
+    for v in obj.values:
+        if isinstance(v, list):
+            out.append(v)
+    return out
+
+
+def mon_copy(ctx):
+    v = mon_frame(ctx)
+    if v:
+        return v
+    if ctx.raised:
+        if ctx.name in ("clone", "export_leaf"):
+            return ("copy.returns", "%s raised %s: %s" % (ctx.name, ctx.outcome[1], ctx.outcome[2]))
+        return None
+    U, post = ctx.U, ctx.post
+    if ctx.name == "clone":
+        orig = ctx.args["x"]
+        new = U.objs[ctx.outcome[1]["new"]]
+        oi, ni = U.index(orig), U.index(new)
+        children = ctx.args.get("children", True) or kind_of(orig) == "prop"
+        keep = ctx.args.get("keep_id", False)
+        if new is orig:
+            return ("copy.disjoint", "clone returned the original object")
+        if kind_of(new) != "doc" and new.parent is not None:
+            return ("copy.detached", "clone reports parent obj#%s" % U.index(new.parent))
+        a_objs, b_objs = U.subtree(orig), U.subtree(new)
+        if any(any(b is a for a in a_objs) for b in b_objs):
+            return ("copy.disjoint", "the clone shares an odml object with the original")
+        if not children:
+            if len(b_objs) != 1:
+                return ("copy.no-children", "clone(children=False) has %d descendants" %
+                        (len(b_objs) - 1))
+            ta, tb = dict(post["objs"][oi]), dict(post["objs"][ni])
+            for key in ("id", "parent", "secs", "props", "merged"):
+                ta.pop(key, None)
+                tb.pop(key, None)
+            if ta != tb:
+                return ("copy.equal", "childless clone differs in own attributes: %r vs %r" % (ta, tb))
+        else:
+            ta, tb = nested(post, oi, with_ids=False), nested(post, ni, with_ids=False)
+            if ta != tb:
+                return ("copy.equal", "clone is not snapshot-equal to the original (ids ignored)")
+            if not (new == orig):
+                return ("copy.equal", "clone != original under the library's ==")
+            inner_a = [lst for o in a_objs if kind_of(o) == "prop" for lst in _inner_lists(o)]
+            for o in b_objs:
+                if kind_of(o) == "prop":
+                    for lst in _inner_lists(o):
+                        if any(lst is la for la in inner_a):
+                            return ("copy.disjoint", "a nested value list is shared with the original")
+        ids_a = [o.id for o in a_objs]
+        ids_b = [o.id for o in b_objs]
+        if keep:
+            if children and ids_a != ids_b:
+                return ("copy.ids", "keep_id=True but ids differ")
+            if not children and new.id != orig.id:
+                return ("copy.ids", "keep_id=True but the id differs")
+        else:
+            shared = [i for i in ids_b if i in ids_a]
+            if shared:
+                return ("copy.ids", "%s clone without keep_id reuses id(s) %s" %
+                        (kind_of(orig), shared[:2]))
+            if len(set(ids_b)) != len(ids_b):
+                return ("copy.ids", "ids inside the clone are not pairwise distinct")
+    if ctx.name == "export_leaf":
+        orig = ctx.args["x"]
+        new = U.objs[ctx.outcome[1]["new"]]
+        a_chain = [orig] + U.ancestors(orig)
+        if kind_of(orig) == "prop":
+            a_chain = a_chain[1:]
+        if any(new is o for o in U.subtree(U.top(orig))):
+            return ("copy.disjoint", "export_leaf returned an object of the original tree")
+        # expected: the chain root -> object, every Section on it with all its Properties only
+        chain = list(reversed(a_chain))
+        if not chain:     # detached Property: the chain is the Property itself
+            exp = nested(ctx.pre, U.index(orig))
+        else:
+            exp = None
+            for node in reversed(chain):
+                rec = nested(ctx.pre, U.index(node))
+                rec["secs"] = [exp] if exp is not None else []
+                if rec["k"] == "sec":
+                    for p in rec["props"]:
+                        p["secs"], p["props"] = [], []
+                exp = rec
+        got = nested(post, U.index(new))
+        if got != exp:
+            return ("copy.leaf-shape", "export_leaf result differs from the chain root->object "
+                    "with all Properties and original ids")
+        if kind_of(new) != "doc" and new.parent is not None:
+            return ("copy.detached", "export_leaf result reports a parent")
+    return None
+
+
+# ------------------------------------------------------------------------------- C19
+
+def build_probe():
+    """A fixed document that triggers every default rule: its default validation result is
+    the public-API fingerprint of the default rule set."""
+    import odml
+    doc = odml.Document(author="probe")
+    s1 = odml.Section(name="s1", type="t", parent=doc)
+    s2 = odml.Section(name="s2", parent=doc)                 # type n.s. -> warning
+    s3 = odml.Section(type="t", parent=doc)                  # name == id -> warning
+    p1 = odml.Property(name="p1", values=[1, 2, 3], parent=s1)
+    p1.val_cardinality = (None, 2)                           # cardinality warning
+    odml.Property(name="p2", values="17", dtype="string", parent=s1)   # string looks like int
+    odml.Property(name="p3", values="a", parent=s1, dependency="nope")  # missing dependency
+    s1.prop_cardinality = (5, None)
+    s1.sec_cardinality = (1, None)
+    dup = p1.clone(keep_id=True)
+    dup.name = "p1dup"
+    s2.append(dup)                                           # duplicate id -> error
+    s3.type = None                                           # missing required attribute -> error
+    return doc
+
+
+def probe_issues(doc):
+    from odml.validation import Validation
+    out = []
+    for err in Validation(doc).errors:
+        vid = err.validation_id
+        name = getattr(err.obj, "name", None)
+        out.append([type(err.obj).__name__, name if name != getattr(err.obj, "id", None) else "<id>",
+                    getattr(vid, "name", str(vid)), err.rank])
+    out.sort(key=repr)
+    return out
+
+
+def valid_prelude(U, interp, env, mem):
+    mem["probe"] = build_probe()
+    mem["probe_issues"] = probe_issues(mem["probe"])
+    from . import seams
+    mem["registry"] = seams.validation_fingerprint()
+
+
+VALIDATION_OPS = ("validate", "doc_validate", "validate_custom")
+
+
+def mon_valid(ctx):
+    from . import seams
+    if ctx.name in VALIDATION_OPS:
+        v = mon_frame(ctx)
+        if v:
+            return ("valid.pure", v[1])
+        if ctx.raised:
+            # whether a validation may raise is C08's statement, not C19's: only purity is judged
+            return None
+        out = ctx.outcome[1]
+        if ctx.name in ("validate", "doc_validate"):
+            if out["issues"] != out["again"] or out["issues"] != out["rerun"]:
+                a = [i for i in out["issues"] if i not in out["again"]]
+                b = [i for i in out["again"] if i not in out["issues"]]
+                return ("valid.repeatable", "same objects validated twice: only first %r, only "
+                        "second %r" % (a[:2], b[:2]))
+            if any(i[3] == "simkit-marker" for i in out["issues"]):
+                return ("valid.private", "a custom rule shows up in a default validation")
+        else:
+            if not out["empty_at_start"]:
+                return ("valid.private", "a Validation created with reset=True already has rules")
+            if any(i[3] != "simkit-marker" for i in out["issues"]):
+                return ("valid.private", "a reset Validation applied rules that were not "
+                        "registered on it: %r" % ([i for i in out["issues"]
+                                                   if i[3] != "simkit-marker"][:2],))
+    now = probe_issues(ctx.mem["probe"])
+    if now != ctx.mem["probe_issues"]:
+        a = [i for i in ctx.mem["probe_issues"] if i not in now]
+        b = [i for i in now if i not in ctx.mem["probe_issues"]]
+        return ("valid.registry", "default validation of the fixed probe document changed after "
+                "%s: lost %r, gained %r" % (ctx.name, a[:3], b[:3]))
+    reg = seams.validation_fingerprint()
+    if reg != ctx.mem["registry"]:
+        return ("valid.registry", "default rule registry changed after %s" % ctx.name)
+    return None
